@@ -2,6 +2,7 @@ package main
 
 import (
 	"fmt"
+	"os"
 	"go/constant"
 	"go/token"
 	"go/types"
@@ -517,6 +518,12 @@ func (f *frame) execInstr(ins ssa.Instruction) {
 			vs = append(vs, f.value(r))
 		}
 		f.rets = append(f.rets, retInfo{cond: f.curReach, vals: vs, st: f.cur})
+		if f.top && f.curReach.S != "false" {
+			// vacuity guard: this return statement is reachable under the contract's assumptions
+			u.covCtr++
+			u.obls = append(u.obls, &Obligation{Name: fmt.Sprintf("cover.%s.return%d", f.key, u.covCtr), Kind: "cover", Goal: not(f.curReach), NItems: len(u.items), Fn: f.key, Cover: true,
+				Src: "return at " + f.pos(ins) + " is reachable"})
+		}
 	case *ssa.Panic:
 		u.oblige(f.key, "safe.panic", "", f.curReach, mkBool(false), f.pos(ins)+" explicit panic reachable", "")
 		f.curReach = mkBool(false)
@@ -606,7 +613,9 @@ func (u *Unit) toInt(t Term) Term {
 			}
 			return intConst(vv)
 		}
-		u.bridgeFact(fmt.Sprintf("(and (<= 0 (bv2nat %[1]s)) (< (bv2nat %[1]s) %[2]s) (= ((_ int2bv %[3]d) (bv2nat %[1]s)) %[1]s))", t.S, new(big.Int).Lsh(big.NewInt(1), uint(t.T.W)).String(), t.T.W))
+		if os.Getenv("GOVC_BRIDGE2") != "" {
+			u.bridgeFact(fmt.Sprintf("(and (<= 0 (bv2nat %[1]s)) (< (bv2nat %[1]s) %[2]s) (= ((_ int2bv %[3]d) (bv2nat %[1]s)) %[1]s))", t.S, new(big.Int).Lsh(big.NewInt(1), uint(t.T.W)).String(), t.T.W))
+		}
 		if t.T.Signed {
 			return Term{fmt.Sprintf("(ite (bvslt %s (_ bv0 %d)) (- (bv2nat %s) %s) (bv2nat %s))", t.S, t.T.W, t.S,
 				new(big.Int).Lsh(big.NewInt(1), uint(t.T.W)).String(), t.S), sInt}
@@ -633,7 +642,7 @@ func (u *Unit) toBV(t Term, s *Sort) Term {
 // bridgeFact records a tautology about an int2bv / bv2nat pair (it spares the solver from rediscovering
 // the inverse relation). Terms that mention quantified variables are skipped.
 func (u *Unit) bridgeFact(f string) {
-	if strings.Contains(f, "q_") || strings.Contains(f, "p_") {
+	if strings.Contains(f, "q_") || strings.Contains(f, "p_") || os.Getenv("GOVC_NOBRIDGE") != "" {
 		return
 	}
 	if u.bridge == nil {
@@ -932,8 +941,17 @@ func (f *frame) convert(ins *ssa.Convert) Val {
 		if ts.K == KInt {
 			return u.define(f.key+"_"+ins.Name(), Term{tr, ts})
 		}
-		u.note("float->integer conversion modelled as truncation of the real value, wrapped into the target width")
-		return u.define(f.key+"_"+ins.Name(), Term{fmt.Sprintf("((_ int2bv %d) %s)", ts.W, tr), ts})
+		// the float -> fixed-width step is axiomatised: an uninterpreted function that agrees with the
+		// mathematical value whenever that value is an integer in range (Go leaves the rest implementation-defined)
+		u.note("M4: float64 modelled as real numbers; float->uintN conversion is an uninterpreted function equal to the value for in-range integral arguments")
+		fn := fmt.Sprintf("f2bv%d", ts.W)
+		u.useSpec(fn)
+		t := u.define(f.key+"_"+ins.Name(), Term{"(" + fn + " " + x.S + ")", ts})
+		if !ts.Signed {
+			u.assume(Term{fmt.Sprintf("(=> (and (is_int %[1]s) (<= 0.0 %[1]s) (< %[1]s %[2]s.0)) (= (bv2nat %[3]s) (to_int %[1]s)))", x.S, new(big.Int).Lsh(big.NewInt(1), uint(ts.W)).String(), t.S), sBool})
+		}
+		_ = tr
+		return t
 	case ts.K == KStr && x.T.K == KSlice:
 		return u.sliceToStr(f.cur, x)
 	case ts.K == KSlice && x.T.K == KStr:
